@@ -14,7 +14,7 @@ RULE = ("Generated datasets of 1-3 scored inputs plus a climatology input with i
         "obs-clim, fcst-clim (or quotients) at the valid cases, cases with missing climatology or non-finite quotient "
         "dropped for every input; (only-obs-fcst) threshold/quantile/pit/ensemble values in mixed requests are not "
         "altered; (extra-input) csv columns of `A B -c X -m mae|rmse|bias|stderror` equal the first columns of `A B X`; "
-        "(not-scored) num_inputs, names, legend, csv header never contain the climatology. Non-trivial: the climatology's "
+        "(field-override) the same equivalence with -fcst / -obs naming another column; (not-scored) num_inputs, names, legend, csv header never contain the climatology. Non-trivial: the climatology's "
         "missing mask differs from the scored inputs' on a common case and its values are not constant; distinct by hash.")
 ASSUMPTIONS = [
     "with a climatology a request for Obs alone is judged in the only-if direction (see C01)",
@@ -107,6 +107,61 @@ def files_strategy(tier):
     return s()
 
 
+def override_strategy(tier):
+    """-c together with -fcst / -obs naming another column: the anomaly is taken of whatever fields are scored."""
+    @st.composite
+    def s(draw):
+        spec = draw(gen.dataset(max_inputs=2, clim=True, flavor="det", core_max=3, extra_max=1, allow_obsless=False, clim_other=True,
+                                other_pool=("raw",)))
+        return {"spec": spec, "metric": draw(st.sampled_from(["mae", "rmse", "bias", "stderror"])),
+                "axis": draw(st.sampled_from(["no", "time", "leadtime", "location"])),
+                "kind": draw(st.sampled_from(["text", "netcdf"])), "which": draw(st.sampled_from(["-fcst", "-fcst", "-obs"]))}
+    return s()
+
+
+def check_override(case, ctx):
+    from .. import drive, mat
+    if "which" not in case:
+        return check_files(case, ctx)
+    spec = case["spec"]
+    allin = spec["inputs"] + [spec["clim"]]
+    if not all((d.get("other") or {}).get("raw") is not None for d in allin):
+        ctx.label("override/no-common-column")
+        return
+    _counter[0] += 1
+    d = os.path.join(ctx.scratch, "v%d" % _counter[0])
+    os.makedirs(d)
+    paths, cp = mat.write_files(spec, d, case["kind"])
+    tail = [case["which"], "raw", "-m", case["metric"], "-x", case["axis"], "-type", "csv"]
+    r1 = drive.run(paths + ["-c", cp] + tail)
+    r2 = drive.run(paths + [cp] + tail)
+    ctx.evals += 1
+    ctx.label("override/" + case["which"])
+    n_in = len(spec["inputs"])
+    for r in (r1, r2):
+        if r.exc is not None:
+            ctx.fail("C14/override/exc/" + r.exc_key, case, r.tb)
+            return
+    if r1.exit not in (None, 0) or r2.exit not in (None, 0):
+        ctx.label("override/error-exit")
+        return
+    h1, rows1 = drive.parse_csv(r1.lines())
+    h2, rows2 = drive.parse_csv(r2.lines())
+    if len(rows1) != len(rows2):
+        ctx.fail("C14/override/rows", case, "%d rows with -c, %d with the climatology as an input" % (len(rows1), len(rows2)))
+        return
+    nd = len(h1) - n_in
+    cl = spec["clim"]["other"]["raw"] if case["which"] == "-fcst" else spec["clim"]["fcst"]
+    if len(set(v for pl in cl for row in pl for v in row if v is not None)) > 1:
+        ctx.nt(("override", case["which"], spec["times"], cl, [dd["other"]["raw"] for dd in spec["inputs"]], case["metric"], case["axis"]))
+    for k, (a, b) in enumerate(zip(rows1, rows2)):
+        ga = [float(x) for x in a[nd:nd + n_in]]
+        gb = [float(x) for x in b[nd:nd + n_in]]
+        if not all(cmpx.close(x, y, 1e-5) for x, y in zip(ga, gb)):
+            ctx.fail("C14/override/" + case["metric"], case, "%s raw, row %d: with -c %r, with the climatology as extra input %r" % (case["which"], k, ga, gb))
+            return
+
+
 _counter = [0]
 
 
@@ -179,4 +234,5 @@ def campaigns(tier):
     return [
         Hyp("api", strategy, check_api, quick=1600, thorough=40000, budget_quick=50, budget_thorough=1200),
         Hyp("files", files_strategy, check_files, quick=640, thorough=16000, budget_quick=50, budget_thorough=1200),
+        Hyp("field-override", override_strategy, check_override, quick=320, thorough=8000, budget_quick=40, budget_thorough=900),
     ]
